@@ -70,7 +70,7 @@ func genSchedCase(t *rapid.T) SchedCase {
 	holds := func(want func(r *simkit.RegionSpec, s uint64) bool) []uint64 {
 		var out []uint64
 		for _, s := range c.Cluster.StoreIDs() {
-			if !c.Cluster.AcceptsLeader(s) {
+			if !c.Cluster.AcceptsLeader(s) || rejectsLeader(&c.Cluster, s) {
 				continue // the generator only names stores that accept leaders at configuration time
 			}
 			for i := range c.Regions {
@@ -102,7 +102,13 @@ func genSchedCase(t *rapid.T) SchedCase {
 		c.Store = simkit.Pick(t, cand, "grantStore")
 	case "label":
 		// make the reject-leader property bite: the property is set and 1-2 stores carry the label
-		c.Cluster.RejectLeader = []simkit.Label{{Key: "noleader", Value: "true"}}
+		has := false
+		for _, l := range c.Cluster.RejectLeader {
+			has = has || (l.Key == "noleader" && l.Value == "true")
+		}
+		if !has {
+			c.Cluster.RejectLeader = append(c.Cluster.RejectLeader, simkit.Label{Key: "noleader", Value: "true"})
+		}
 		n := simkit.IntU(t, 1, 2, "nNoLeader")
 		for _, i := range rapid.Permutation(idx(len(c.Cluster.Stores))).Draw(t, "noLeaderStores")[:n] {
 			if c.Cluster.Stores[i].Label("noleader") == "" {
@@ -198,6 +204,8 @@ func runSchedCase(c SchedCase) (vkit.Info, error) {
 	info.ClassIf(c.Cluster.PlacementRules, "placement-rules")
 	info.ClassIf(c.TiFlashLearners > 0, "tiflash-rule")
 	info.ClassIf(c.RangeTo >= 0, "key-range")
+	info.ClassIf(len(c.Cluster.RejectLeader) > 0, "reject-leader-property")
+	info.ClassIf(repeatedRejectKey(&c.Cluster), "reject-leader-property:repeated-key")
 	if first.skippedLeaderless {
 		info.Exclude(keyHotNilLeader)
 		info.Class("excluded:read-flow-on-leaderless-region")
